@@ -4,6 +4,7 @@ Property theorems only; the model is `Model/Acl.lean`.
 -/
 import PrimaiteModel.Model.Acl
 import PrimaiteModel.Gen.Acl
+import PrimaiteModel.Gen.AclMatch
 namespace Primaite.Acl
 
 /-! ### wildcard masks -/
@@ -57,7 +58,9 @@ theorem portMatches_iff (rp pp : Option Nat) : portMatches rp pp = true ↔ Port
   unfold portMatches PortSpec
   cases rp with
   | none => simp
-  | some p => simp
+  | some p =>
+    simp only [beq_iff_eq, Option.some.injEq, forall_eq']
+    exact eq_comm
 
 /-- A rule matches a packet iff every *specified* field agrees; unspecified fields match anything. -/
 theorem C07_matches_iff (r : Rule) (p : Packet) :
@@ -308,4 +311,71 @@ open Primaite.Gen.Acl in
 stop-at-first-match loop the model's `firstMatch` describes. -/
 theorem C07_gen_bounds : addBound = slots ∧ removeBound = slots ∧ slots + 1 = maxAclRules ∧
     scanIsForward = true ∧ scanBreaksAtFirstMatch = true := by decide
+end Primaite.Acl
+
+/-! ### tie to the translated source of `permit_frame_check` / `ip_matches_masked_range` (Gen/AclMatch.lean) -/
+namespace Primaite.Acl
+open Primaite.Gen.AclMatch
+
+/-- the frame as the model sees it: the TCP header's ports if there is one, else the UDP header's -/
+def toPacket (f : FrameView) : Packet :=
+  { proto := f.proto, srcIp := f.srcIp, dstIp := f.dstIp,
+    ports := match f.tcp with
+      | some p => some p
+      | none => f.udp }
+
+theorem C07_gen_ip_matches (ip base wc : Ip) : ipMatchesMaskedRange ip base wc = ipMatches ip base wc := by
+  unfold ipMatchesMaskedRange ipMatches
+  simp [BEq.beq, decide_eq_decide]
+
+/-- The statement-by-statement translation of the CURRENT source of `ACLRule.permit_frame_check` computes, for every
+rule and every frame, exactly `(matches ∧ action = PERMIT, matches)` with the model's `Rule.hits?`.  A change of the
+source that alters the matching semantics (a truthiness test on a port, a swapped field, a dropped wildcard branch)
+makes this theorem fail. -/
+theorem beq_as_decide {α} [DecidableEq α] (a b : α) : (a == b) = decide (a = b) := by
+  by_cases h : a = b <;> simp [h]
+
+theorem ite_pair (c : Prop) [Decidable c] (p : Bool) :
+    (if c then (true, p) else (false, false)) = (decide c, decide c && p) := by
+  by_cases h : c <;> simp [h]
+
+/-- header selection as the source does it (`if frame.tcp: … elif frame.udp: …`) -/
+def selPorts (tcp udp : Option (Nat × Nat)) : Option (Nat × Nat) :=
+  match tcp with
+  | some p => some p
+  | none => udp
+
+/-! the shapes the translator produces for the four kinds of field test, each equal to the model's function -/
+theorem g_proto (rp : Option Proto) (fp : Proto) :
+    (if rp.isSome = true then decide (rp = some fp) else true) = protoMatches rp fp := by
+  cases rp <;> simp [protoMatches, beq_as_decide]
+
+theorem g_addr (ip wc : Option Ip) (x : Ip) :
+    (if ip.isSome = true then
+        if wc.isSome = true then ipMatchesMaskedRange x (ip.getD 0) (wc.getD 0) else decide (some x = ip)
+      else ip.isNone) = addrMatches ip wc x := by
+  cases ip <;> cases wc <;> simp [addrMatches, C07_gen_ip_matches, beq_as_decide]
+
+theorem g_ports (tcp udp : Option (Nat × Nat)) :
+    (if tcp.isSome = true then (Option.map Prod.snd tcp, Option.map Prod.fst tcp)
+      else
+        ((if udp.isSome = true then (Option.map Prod.snd udp, Option.map Prod.fst udp) else (none, none)).fst,
+         (if udp.isSome = true then (Option.map Prod.snd udp, Option.map Prod.fst udp) else (none, none)).snd)) =
+    ((selPorts tcp udp).map Prod.snd, (selPorts tcp udp).map Prod.fst) := by
+  cases tcp <;> cases udp <;> simp [selPorts]
+
+theorem g_port (rp pp : Option Nat) :
+    (if rp.isSome = true then decide (rp = pp) else true) = portMatches rp pp := by
+  cases rp <;> cases pp <;> simp [portMatches, beq_as_decide]
+
+/-- The statement-by-statement translation of the CURRENT source of `ACLRule.permit_frame_check` computes, for every
+rule and every frame, exactly `(matches ∧ action = PERMIT, matches)` with the model's `Rule.hits?`.  A change of the
+source that alters the matching semantics (a truthiness test on a port, a swapped field, a dropped wildcard branch)
+makes this theorem fail. -/
+theorem C07_gen_permit_frame_check (r : Rule) (f : FrameView) :
+    permitFrameCheck r f = ((r.action == .permit) && r.hits? (toPacket f), r.hits? (toPacket f)) := by
+  have hp : (toPacket f).ports = selPorts f.tcp f.udp := by
+    simp only [toPacket, selPorts]
+  simp only [permitFrameCheck, g_proto, g_addr, g_ports, g_port, ite_pair, Rule.hits?, hp]
+  simp [toPacket, beq_as_decide, Bool.and_comm]
 end Primaite.Acl
